@@ -52,6 +52,16 @@ PROPS = {
                 aspects=['removals'], monitors=['C01'],
                 theorems=['Esc.P.C01_scan_partial', 'Esc.P.C01_history_partial', 'Esc.P.C01_unreadable', 'Esc.P.C01_untainted', 'Esc.P.C01_cordoned',
                           'Esc.P.C01_full_fails']),
+    'C02': dict(level='proof', module='EscProofs.P.C02', streams=hist('C02', focus='cooldown'),
+                aspects=['writes', 'state', 'journal'], monitors=['C02'],
+                theorems=['Esc.P.C02_quiet_scan', 'Esc.P.C02_history_quiet', 'Esc.P.C02_release', 'Esc.P.C02_release_scan', 'Esc.P.C02_armed',
+                          'Esc.P.increaseSize_none', 'Esc.P.runOnce_quiet'],
+                technique='Lean 4 theorem (lock invariant carried through RunOnce and along histories by induction over the event list, explicit clock) + differential correspondence on all calls and on the lock state + monitor over observed histories',
+                level_text='C02_quiet_scan / C02_history_quiet: while now - lockTime < cool-down a group scan issues no call at all and leaves the lock untouched, for every view (below minimum, force-tainted, expired nodes) and, within one lifetime, '
+                           'along every history of scans; C02_armed + increaseSize_none: the lock is armed only on an accepted SetDesiredCapacity/AttachInstances (or in dry mode); C02_release(_scan): once the period has elapsed the lock is not held. '
+                           'Tie: hist (cool-down focused: advances around the period, below-minimum views inside the window) compares every call and the lock state (time quantised by a hook); monitor: any call inside an observed window. '
+                           'The strictness of the boundary comparison (< vs <=) at the nanosecond is not distinguishable by the harness (real clock).',
+                level_note=LEVEL_NOTE),
     'C03': dict(level='proof', module='EscProofs.P.C03', streams=hist('C03'),
                 aspects=['taintadds', 'untaints'], monitors=['C03'],
                 theorems=['Esc.P.C03_floor', 'Esc.P.C03_below_min', 'Esc.P.C03_history'],
